@@ -53,6 +53,14 @@ Verdicts(r) ==
       edited == (IF Has(o, "c5") /\ Has(o, "c6") /\ o.c5 # o.c6 THEN {V("unstable", "after an in-place edit")} ELSE {})
                 \* an answer once given is the caller's: it does not change when the statement, or a clone, is asked again
                 \cup (IF Has(o, "c1_later") /\ o.c1_later # o.c1 THEN {V("unstable", "an earlier answer changed")} ELSE {})
+                \* rewrites of the form leave the columns alone
+                \* (RewriteDistinct turns DISTINCT x into distinct(x): another statement, whose unaliased column may be named
+                \* otherwise - the present code names the keyword form "" and the call "distinct" - but the same number of
+                \* columns, and explicit aliases verbatim)
+                \cup (IF Has(o, "c7") /\ (Len(o.c7) # Len(o.c4) \/ (lenOK /\ ~AliasesVerbatim(FieldCols(o.c7, r.omit), slots)))
+                      THEN {V("alias-not-verbatim", "after RewriteDistinct")} ELSE {})
+                \cup (IF Has(o, "c8") /\ o.c8 # o.c4 THEN {V("unstable", "after RewriteTimeFields once more")} ELSE {})
+                \cup (IF Has(o, "c9") /\ o.c9 # o.c4 THEN {V("unstable", "after RewriteTimeFields on a clone")} ELSE {})
       all == complete \cup alias \cup suffix \cup distinct \cup stable \cup edited
   IN IF all # {} THEN all
      ELSE IF cols = ColumnNamesImpl(r.fields, r.into, r.omit, r.eta) THEN {} ELSE {V("drift:names", "")}
